@@ -422,7 +422,9 @@ func (p *peer) build(h *histState, idx int, pd pending) ntp.Packet {
 	pkt.SetMode(ntp.ModeServer)
 	pkt.Stratum = 1
 	pkt.Poll = pd.req.Poll
-	pkt.Precision = -32
+	// the precision a server announces says nothing about how its timestamps are to be read
+	precs := []int8{-32, -32, -29, -25, -20, -16, -10, -6, -1, 0, 1, 7, -128, 127}
+	pkt.Precision = precs[(uint64(pd.srx.UnixNano()/1000)+uint64(idx))%uint64(len(precs))]
 	pkt.RootDispersion = ntp.Time32{Seconds: 0, Fraction: 10}
 	pkt.ReferenceID = 0x58535453
 	pkt.ReferenceTime = tx64
